@@ -24,6 +24,7 @@ POOL_NAMES = ["dyadic", "decimal", "tie", "normalised", "mixed", "tiny", "ratio"
 ALPHA_CHARS = "abcxyz"
 SPECIAL_ALPHA = ["é", "ф", "α", "ñ", "ß", "ŉ", "ﬁ", "ǆ"]   # 1:1 case maps, plus letters whose upper() is 2 characters
 DIGITS = "0123456789"
+ODD_CHARS = ["\u00a0", "\u3000", "\u2003", "\u200f", "\u00ad", "\u200d", "\ue000"]
 OTHERS = "!@#$ .-_"
 KEYB = ["1qaz", "qwer", "asdf", "1q2w", "zaq1", "2wsx"]
 KEYB_BY_LEN = {4: KEYB, 5: ["1qaz2", "qwer4", "asdf5", "zaq12", "1q2w3"], 6: ["1qaz2w", "1q2w3e", "zaq12w"]}
@@ -81,6 +82,11 @@ def _values_for(t, kind, n, count, used, hostile):
             v = "".join(OTHERS[t.draw(len(OTHERS))] for _ in range(n))
             if hostile and t.chance(1, 8):
                 v = v[:-1] + "\U0001F600"
+            elif hostile and t.chance(1, 6):
+                # characters the trainer accepts although str.isprintable() / str.isspace() single them out: no-break and
+                # ideographic space, right-to-left mark, soft hyphen, zero-width joiner, a private-use code point
+                k = t.draw(n)
+                v = v[:k] + t.choice(ODD_CHARS) + v[k + 1:]
         elif kind == "K":
             pool = KEYB_BY_LEN.get(n) or [(k * 4)[:n] for k in KEYB]
             v = pool[t.draw(len(pool))]
@@ -224,7 +230,7 @@ def gen_syn(t, allow_m=True, max_pts=600, hostile=False, force_m=False, omen=Non
     mprob = None
     if has_m:
         pos = t.draw(len(base) + 1)
-        mp = t.choice(["0.4", "0.25", "0.5", "0.1", "0.0625"])
+        mp = t.choice(["0.4", "0.25", "0.5", "0.1", "0.0625", "3.999999999998545e-05", "1e-05"])
         base.insert(pos, ["M", mp])
     # base structure files are written most probable first
     base.sort(key=lambda x: -float(x[1]))
